@@ -719,6 +719,8 @@ fn step_vop_inner(ob: &mut ObservableVector<Tracked>, vop: &VOp, mon: &mut Mon, 
             let mut work = before_v.clone();
             let mut certain = 0usize; // recorded changes that any implementation has to publish
             let mut any_clear = false;
+            // an out-of-range call inside the body panicked (it must leave no trace in what is published: C17)
+            let had_panic = std::cell::Cell::new(false);
             let mut tx = ob.transaction();
             let mut phase = |tx: &mut eyeball_im::ObservableVectorTransaction<'_, Tracked>,
                              ops: &[VOp],
@@ -745,6 +747,8 @@ fn step_vop_inner(ob: &mut ObservableVector<Tracked>, vop: &VOp, mon: &mut Mon, 
                         }
                     } else if expect != Ret::Panic {
                         *certain += direct_messages(&wb, op);
+                    } else {
+                        had_panic.set(true);
                     }
                     let (ret, ids) = exec_on_txn(tx, op, &mut || {});
                     check_ret(op, &expect, &ret, &ids, None, mon, "transaction ")?;
@@ -834,17 +838,20 @@ fn step_vop_inner(ob: &mut ObservableVector<Tracked>, vop: &VOp, mon: &mut Mon, 
                     let _ = certain;
                 } else {
                     if certain == 0 && !any_clear {
-                        return div("C07", format!("commit without recorded changes published {}", show_diffs(&new[0])));
+                        let tag = if had_panic.get() { "C07|C17" } else { "C07" };
+                        return div(tag, format!("commit without recorded changes published {}", show_diffs(&new[0])));
                     }
                     let mut r = before.clone();
                     for d in &new[0] {
                         if let Err(e) = d.checked_apply(&mut r) {
-                            return div("C05|C07", format!("committed diff {} is inapplicable to the pre-transaction state: {e}", d.show()));
+                            let tag = if had_panic.get() { "C05|C07|C17" } else { "C05|C07" };
+                            return div(tag, format!("committed diff {} is inapplicable to the pre-transaction state: {e}", d.show()));
                         }
                     }
                     if vals(&r) != after {
+                        let tag = if had_panic.get() { "C05|C07|C17" } else { "C05|C07" };
                         return div(
-                            "C05|C07",
+                            tag,
                             format!("pre-state {before_v:?} + committed {} = {:?}, but the contents are {after:?}", show_diffs(&new[0]), vals(&r)),
                         );
                     }
@@ -932,10 +939,9 @@ fn step_vop_inner(ob: &mut ObservableVector<Tracked>, vop: &VOp, mon: &mut Mon, 
                     format!("{}: before {before_v:?} + diffs {:?} = {:?}, contents {after:?}", vop.show(), new.iter().map(|m| show_diffs(m)).collect::<Vec<_>>(), vals(&r)),
                 );
             }
-            // an empty append changes nothing and is not among the documented no-ops: both "one
-            // (harmless) diff" and "no diff" are accepted for it
-            let empty_append = matches!(vop, VOp::Append(v) if v.is_empty());
-            if direct && new.len() != want_msgs && !(empty_append && new.is_empty()) {
+            // (an empty append is a direct call and not among the documented no-ops the statement lists: it
+            // contributes exactly one diff like every other direct call)
+            if direct && new.len() != want_msgs {
                 return div(
                     "C05",
                     format!("{} on {before_v:?} published {} message(s), expected {want_msgs}", vop.show(), new.len()),
